@@ -10,6 +10,7 @@ import Miden.Spec.Parse
 import Miden.Model.Air
 import Miden.Generated.ProvingOpts
 import Miden.Model.Serde
+import Miden.Model.Lookup
 namespace Miden
 
 def joinNats (l : List Nat) : String := ",".intercalate (l.map toString)
@@ -235,6 +236,22 @@ def handle (line : String) : String :=
     s!"digest {joinNats (Rpo.mergeInDomain (parseNats a) (parseNats b) (d.toNat?.getD 0))}"
   | ["permute", s] => s!"state {joinNats (Rpo.permute (parseNats s))}"
   | ["hashelems", s] => s!"digest {joinNats (Rpo.hashElements (parseNats (if s == "-" then "" else s)))}"
+  | ["auxcol", initResp, _n, resp, req] =>
+    let g (s : String) : List GF := (parseNats (if s == "-" then "" else s)).map (fun v => (⟨v % P⟩ : GF))
+    let col := Lookup.buildAuxColumn (⟨initResp.toNat?.getD 0⟩ : GF) 1 (g resp) (g req)
+    s!"col {joinNats (col.map (·.v))}"
+  | ["logup", alpha, b0, rows] =>
+    let g (s : String) : List GF := (parseNats (if s == "-" then "" else s)).map (fun v => (⟨v % P⟩ : GF))
+    let parseRow (r : String) : List (GF × GF) × List GF :=
+      match r.splitOn "|" with
+      | [mv, ls] =>
+        (match g mv with
+          | [m, v] => [(m, v)]
+          | _ => [], g ls)
+      | _ => ([], [])
+    let rs := if rows == "-" then [] else (rows.splitOn ";").map parseRow
+    let col := Lookup.logUpColumn (⟨alpha.toNat?.getD 0⟩ : GF) (⟨b0.toNat?.getD 0⟩ : GF) rs
+    s!"col {joinNats (col.map (·.v))}"
   | ["felt", op, a, b] =>
     let a := a.toNat?.getD 0; let b := b.toNat?.getD 0
     let r := if op == "add" then fadd a b else if op == "sub" then fsub a b
